@@ -29,7 +29,7 @@ def _case(draw):
     ops = []
     for _ in range(draw(st.integers(1, 25))):
         o = draw(st.sampled_from(['req', 'req', 'req', 'reply', 'reply', 'coalesce', 'split', 'unsolicited', 'dup', 'lose', 'stray+reply', 'req-retry',
-                                  'bad-req', 'stray-split']))
+                                  'bad-req', 'stray-split', 'req-again']))
         if o == 'req':
             ops.append(['req', draw(st.integers(1, 247)), draw(st.integers(1, 6))])
         elif o == 'req-retry':
@@ -38,6 +38,9 @@ def _case(draw):
         elif o == 'stray+reply':
             # an unsolicited / duplicate reply in the same read as (in front of) a genuine reply, whole or partial
             ops.append(['stray+reply', draw(st.integers(0, 9)), draw(st.sampled_from(['whole', 'partial'])), draw(st.integers(1, 12))])
+        elif o == 'req-again':
+            # the application re-uses a request OBJECT it has already executed (still outstanding or long answered)
+            ops.append(['req-again', draw(st.integers(0, 9))])
         elif o == 'bad-req':
             # a request the caller filled in wrongly: it cannot be encoded, execute() raises and nothing is sent
             ops.append(['bad-req', draw(st.integers(1, 247)), draw(st.sampled_from(['value-too-large', 'negative-address', 'too-many-registers']))])
@@ -136,10 +139,11 @@ def run_case(case):
     nt = False
     sent_len = [0]
 
-    def issue(unit, count, reissue=False):
+    def issue(unit, count, reissue=False, obj=None):
         idx = len(reqs)
         r = {'idx': idx, 'unit': unit, 'count': count, 'fired': [], 'failed': [], 'delivered': 0, 'after_loss': lost_flag[0]}
-        d = proto.execute(ReadHoldingRegistersRequest(idx & 0xFFFF, count, unit=unit))
+        r['obj'] = obj if obj is not None else ReadHoldingRegistersRequest(idx & 0xFFFF, count, unit=unit)
+        d = proto.execute(r['obj'])
 
         data = tr.value()[sent_len[0]:]
         sent_len[0] = len(tr.value())
@@ -221,8 +225,16 @@ def run_case(case):
             done_ops.append(op)
             if discs:
                 break
-            if op[0] == 'req':
+            if op[0] == 'req-again' and not reqs:
+                continue
+            if op[0] == 'req-again':
+                old_ = reqs[op[1] % len(reqs)]
+                labels.append('request-object-reused')
+                op = ['req', old_['unit'], old_['count']]
+                r = issue(old_['unit'], old_['count'], obj=old_['obj'])
+            elif op[0] == 'req':
                 r = issue(op[1], op[2], reissue=(len(op) > 3))
+            if op[0] == 'req':
                 r['lost'] = False
                 if lost:
                     labels.append('issue-after-loss')
